@@ -6,6 +6,7 @@
   Output: one line per record, `ok`, `skip <op>` (operation not in the abort model) or `UNEXPECTED ...`.
 -/
 import Caches.Model.AbortOwn
+import Caches.Model.AbortG
 open M M.Abort
 
 abbrev K := Nat
@@ -116,11 +117,93 @@ def checkLine (line : String) : String :=
       else s!"UNEXPECTED {line}"
   | _, _, _, _, _ => s!"BAD {line}"
 
+/-! ### composite caches: `INJC` records against `Caches/Model/AbortG.lean` -/
+namespace Comp
+open M.AG
+
+/-- `[k:v k:v]@[p p]` -/
+def parseList (s : String) : List (K × V) × List Nat :=
+  match s.splitOn "@" with
+  | [a, b] => (parseEnts a, parseKeys b)
+  | _ => ([], [])
+
+def parseNums (s : String) : List Nat := (s.splitOn ",").filterMap (·.trimAscii.toString.toNat?)
+
+/-- the state before the operation: ids 1.. in list order; the index of a list holds the listed chain positions -/
+def mkG (caps : List Nat) (p : Nat) (lists : List (List (K × V) × List Nat)) (ticks : Nat) : G K V :=
+  let step := fun (acc : List (Ent K V) × List (List (K × Nat)) × Nat × Nat) (l : List (K × V) × List Nat) =>
+    let (pool, idxs, c, nxt) := acc
+    let ents : List (Ent K V) := (l.1.zipIdx nxt).map fun (e, i) => ⟨.inL c, i, e.1, e.2⟩
+    let idx : List (K × Nat) := (l.1.zipIdx 0).filterMap fun (e, pos) => if l.2.contains pos then some (e.1, nxt + pos) else none
+    (pool ++ ents, idxs ++ [idx], c + 1, nxt + l.1.length)
+  let (pool, idxs, _, nxt) := lists.foldl step ([], [], 0, 1)
+  { pool := pool, idx := fun c => idxs.getD c [], cap := fun c => caps.getD c 0, next := nxt, ticks := ticks, fault := false, p := p }
+
+def projList (g : G K V) (c : Nat) : List (K × V) × List Nat :=
+  let ch := chain g c
+  (ch.map fun e => (e.key, e.val),
+   (ch.zipIdx 0).filterMap fun (e, pos) => if (g.idx c).contains (e.key, e.id) then some pos else none)
+
+def proj (g : G K V) (n : Nat) : List (List (K × V) × List Nat) × Nat := ((List.range n).map (projList g), g.p)
+
+/-- the modelled operation (`none`: not modelled — nothing to compare) -/
+def action (comp op : String) (args par : List Nat) : Option (Act K V Unit) :=
+  let size := par.getD 0 0
+  let rs := par.getD 1 0
+  let ro (_cs : List Nat) : Act K V Unit := fun g => (some (), g)   -- read-only calls leave every list as it is
+  match comp, op, args with
+  | "slru", "put", [k, v] => some (do let _ ← Slru.put k v)
+  | "slru", "get", [k] | "slru", "getmut", [k, _] => some (do let _ ← Slru.get k)
+  | "slru", "remove", [k] => some (do let _ ← Slru.remove k)
+  | "slru", "purge", [] => some Slru.purge
+  | "slru", "putprotected", [k, v] => some (do let _ ← Slru.putProtected k v)
+  | "slru", "removelruprob", [] => some (do let _ ← rawRemoveLru 0)
+  | "slru", "removelruprot", [] => some (do let _ ← rawRemoveLru 1)
+  | "twoq", "put", [k, v] => some (do let _ ← TwoQ.put ⟨size, rs⟩ k v)
+  | "twoq", "get", [k] | "twoq", "getmut", [k, _] => some (do let _ ← TwoQ.get k)
+  | "twoq", "remove", [k] => some (do let _ ← TwoQ.remove k)
+  | "twoq", "purge", [] => some TwoQ.purge
+  | "arc", "put", [k, v] => some (do let _ ← Arc.put size k v)
+  | "arc", "get", [k] | "arc", "getmut", [k, _] => some (do let _ ← Arc.get k)
+  | "arc", "remove", [k] => some (do let _ ← Arc.remove k)
+  | "arc", "purge", [] => some Arc.purge
+  | _, "peek", _ | _, "peekmut", _ | _, "contains", _ | _, "clone", _ | _, "iter", _ | _, "len", _ | _, "cap", _
+  | _, "isempty", _ => some (ro [])
+  | _, _, _ => none
+
+def checkLine (line : String) : String :=
+  let parts := (line.splitOn " | ").map (·.trimAscii.toString)
+  match field parts "comp=", field parts "caps=", field parts "par=", field parts "op=", field parts "pre=",
+        field parts "post=", field parts "ppost=" with
+  | some comp, some capsf, some parf, some opf, some pref, some postf, some ppostf =>
+    let caps := parseNums capsf
+    let par := parseNums parf
+    let toks := (opf.splitOn " ").filter (· ≠ "")
+    let op := toks.head!
+    let args := toks.tail.filterMap (·.toNat?)
+    let pre := (pref.splitOn ";").map parseList
+    let post := (postf.splitOn ";").map parseList
+    let seen := (post, (parseNums ppostf).getD 2 0)
+    let n := pre.length
+    match action comp op args par with
+    | none => s!"skip {op}"
+    | some act =>
+      let big := 100000
+      let (_, gfin) := act (mkG caps (par.getD 2 0) pre big)
+      let used := big - gfin.ticks
+      let outs := (List.range (used + 1)).map fun t => (act (mkG caps (par.getD 2 0) pre t)).2
+      if outs.any (·.fault) || gfin.fault then s!"FAULT {line}"
+      else if (gfin :: outs).any (fun g => proj g n == seen) then "ok"
+      else s!"UNEXPECTED {line}"
+  | _, _, _, _, _, _, _ => s!"BAD {line}"
+end Comp
+
 partial def loop (h : IO.FS.Stream) : IO Unit := do
   let line ← h.getLine
   if line.isEmpty then return ()
   let l := line.trimAscii.toString
   if l.startsWith "INJ " then IO.println (checkLine l)
+  if l.startsWith "INJC " then IO.println (Comp.checkLine l)
   loop h
 
 def main : IO Unit := do loop (← IO.getStdin)
